@@ -20,7 +20,7 @@ RULE = ("one run = one generated proper table MDP with uniform action sets x (th
         "decision-log digest; non-trivial = >=1 decision and >=1 oracle clause")
 REAL = ["msdm.algorithms.rmax.RMAX (unmodified)", "msdm.core.distributions sampling path", "TabularMarkovDecisionProcess state/action lists and reward matrix"]
 STUB = ["table MDP behind msdm's model interface", "random.Random streams (SimRandom)", "empirical model rebuilt from the recorded history"]
-ASSUMPTIONS = ["proper MDPs, uniform action sets, discount < 1, <= 6 non-absorbing states", "rmax configured as the maximum of the model's reward tensor (the learner asserts it)"]
+ASSUMPTIONS = ["proper MDPs, uniform action sets, discount < 1, <= 6 non-absorbing states (6%: 2-3 states with up to 7 actions); the Bellman tolerance is the configured one plus 32 ulp of the values compared", "rmax configured as the maximum of the model's reward tensor (the learner asserts it)"]
 from sim.models import SEAM_RANGES  # noqa: E402
 ASSUMPTIONS = ASSUMPTIONS + [SEAM_RANGES]
 
